@@ -78,7 +78,12 @@ WantRaw(drv, outcome) ==
 CallerPairing(drv, wire, cl) ==
     LET pos == Positions(wire, cl.name)
         \* wire entries of the caller that are not ENABLE DEVICE TYPE prefixes, in order
-        cmdpos == SelectSeq(pos, LAMBDA k : ~(wire[k].bits = 16 /\ wire[k].frame \div 256 = 193))
+        nopfx == SelectSeq(pos, LAMBDA k : ~(wire[k].bits = 16 /\ wire[k].frame \div 256 = 193))
+        \* a caller that asked for transparent retry may put a command on the wire again after a reconnection:
+        \* its answer is the one to the last attempt
+        cmdpos == IF cl.exceptions = 1 THEN nopfx
+                  ELSE SelectSeq([j \in 1..Len(nopfx) |-> IF j < Len(nopfx) /\ wire[nopfx[j]].frame = wire[nopfx[j + 1]].frame THEN 0 ELSE nopfx[j]],
+                                 LAMBDA x : x # 0)
         n == Len(cl.results)
         bad == {k \in 1..n :
                   LET c == cl.unit[k]
@@ -104,7 +109,53 @@ AnswerPairing(r) ==
             Fail(CallerPairing(r.driver, r.wire, r.callers[k]) \o ":" \o r.callers[k].name, k)
        ELSE Pass
 
-Verdict(r) == CASE Mode = "c15" -> TxnAtomic(r) [] Mode = "c16" -> AnswerPairing(r)
+\* ---- C17 -----------------------------------------------------------------------------------
+\* r.params = [limit (-1 = none), interval (ms), expect_failed, timeout_confirm (ms), timeout_answer (ms)]; times in r are
+\* milliseconds of virtual time
+AllowedSendExc == {"none", "CommunicationError", "CancelledError"}
+
+Recovery(r) ==
+    LET S == [k \in 1..Len(r.status) |-> r.status[k][2]]
+        n == Len(S)
+        outage == {k \in 1..(Len(r.opens) - 1) : r.opens[k][2] = 0}       \* a failed attempt followed by another attempt
+        badgap == {k \in outage : r.opens[k + 1][1] - r.opens[k][1] # r.params.interval}
+        badpair == {k \in 1..Len(r.callers) : r.callers[k].exc = "none" /\ CallerPairing(r.driver, r.wire, r.callers[k]) # ""}
+        serial == SerialDrv(r.driver)
+        okexc == IF serial THEN {"none", "TimeoutError", "CancelledError"} ELSE AllowedSendExc
+        slow == {k \in 1..Len(r.callers) : r.callers[k].exc = "TimeoutError" /\
+                   r.callers[k].t1 - r.callers[k].t0 > Len(r.callers[k].unit) * (r.params.timeout_confirm + r.params.timeout_answer) + 1}
+    IN IF r.info.loop_exc # "none" THEN Fail("event-loop:" \o r.info.loop_exc, 0)
+       \* a send issued after the driver has given up (reconnect limit reached, "failed") waits for a connection the
+       \* application has to request itself: such callers are not judged
+       ELSE IF \E k \in 1..Len(r.callers) : r.callers[k].name \in {r.out.hung[j] : j \in 1..Len(r.out.hung)}
+                                             /\ ~(r.params.expect_failed = 1 /\ r.callers[k].after_loss = 1)
+            THEN Fail("caller-hangs:" \o r.out.hung[1], 0)
+       ELSE IF \E k \in 1..Len(r.callers) : r.callers[k].exc \notin okexc
+                                             /\ ~(r.params.expect_failed = 1 /\ r.callers[k].after_loss = 1)
+            THEN Fail("send-raised:" \o r.callers[CHOOSE k \in 1..Len(r.callers) : r.callers[k].exc \notin okexc].exc, 0)
+       ELSE IF \E k \in 1..Len(r.callers) : r.callers[k].exc = "CommunicationError" /\ r.callers[k].exceptions = 0
+            THEN Fail("CommunicationError-although-exceptions-off", 0)
+       ELSE IF \E k \in 1..Len(r.callers) : r.callers[k].exc = "CancelledError" /\ r.callers[k].cancelled = 0
+                                             /\ ~(r.params.expect_failed = 1 /\ r.callers[k].after_loss = 1)
+            THEN Fail("spurious-cancellation", 0)
+       ELSE IF badpair # {} THEN LET k == CHOOSE x \in badpair : TRUE IN
+            Fail(CallerPairing(r.driver, r.wire, r.callers[k]) \o ":" \o r.callers[k].name, k)
+       ELSE IF slow # {} THEN Fail("timeout-later-than-documented", CHOOSE k \in slow : TRUE)
+       ELSE IF r.lock_free # 1 THEN Fail("transaction-lock-still-held", 0)
+       ELSE IF r.out.tail.exc # "none" THEN Fail("further-sends-failed:" \o r.out.tail.exc, r.out.tail.n)
+       ELSE IF r.out.tail.wrong # 0 THEN Fail("further-sends-got-wrong-answers", r.out.tail.wrong)
+       ELSE IF badgap # {} THEN Fail("reconnect-attempts-not-at-configured-interval", CHOOSE k \in badgap : TRUE)
+       ELSE IF ~serial /\ r.params.expect_failed = 1 /\ (n = 0 \/ S[n] # "failed") THEN Fail("failed-not-reported-after-reconnect-limit", n)
+       ELSE IF ~serial /\ r.params.expect_failed = 0 /\ \E k \in 1..n : S[k] = "failed" THEN Fail("failed-reported-without-reaching-limit", 0)
+       ELSE IF ~serial /\ r.params.limit >= 0 /\ r.params.expect_failed = 1
+               /\ Cardinality({k \in 1..Len(r.opens) : r.opens[k][2] = 0 /\ r.opens[k][1] > r.params.lost_at}) > r.params.limit
+            THEN Fail("more-reconnect-attempts-than-the-limit", 0)
+       ELSE IF ~serial /\ n > 0 /\ r.params.expect_failed = 0 /\ r.present_at_end = 1 /\ S[n] # "connected"
+            THEN Fail("not-reported-connected-after-device-returned", n)
+       ELSE IF ~serial /\ \E k \in 1..(n - 1) : S[k] = "connected" /\ S[k + 1] = "connected" THEN Fail("connected-reported-twice", 0)
+       ELSE Pass
+
+Verdict(r) == CASE Mode = "c15" -> TxnAtomic(r) [] Mode = "c16" -> AnswerPairing(r) [] Mode = "c17" -> Recovery(r)
 
 Judge == LET r == Recs[i]
              v == Verdict(r)
